@@ -672,7 +672,14 @@ func checkMain(args []string) int {
 				} else {
 					mismatched++
 					if len(mismatchNotes) < 5 {
-						mismatchNotes = append(mismatchNotes, fmt.Sprintf("%s%v vec=%v engine=%v native=%s %v", ss[i].Harness, ss[i].Args, ss[i].Vector, ss[i].Obs, o.Outcome, o.Obs))
+						var diff []string
+						for tag, hex := range ss[i].Obs {
+							if o.Obs[tag] != hex && len(diff) < 4 {
+								diff = append(diff, fmt.Sprintf("%s: engine=%s native=%s", tag, unhex(hex), unhex(o.Obs[tag])))
+							}
+						}
+						sort.Strings(diff)
+						mismatchNotes = append(mismatchNotes, fmt.Sprintf("%s%v vec=%v native-outcome=%s %v", ss[i].Harness, ss[i].Args, ss[i].Vector, o.Outcome, diff))
 					}
 				}
 			}
@@ -799,6 +806,19 @@ func checkMain(args []string) int {
 		return 1
 	}
 	return 0
+}
+
+func unhex(h string) string {
+	var parts []string
+	for _, part := range strings.Split(h, "|") {
+		b := make([]byte, 0, len(part)/2)
+		for i := 0; i+1 < len(part); i += 2 {
+			v, _ := strconv.ParseUint(part[i:i+2], 16, 8)
+			b = append(b, byte(v))
+		}
+		parts = append(parts, strconv.Quote(string(b)))
+	}
+	return strings.Join(parts, "|")
 }
 
 func maxI(a, b int) int {
